@@ -171,7 +171,7 @@ def gillespie_horizon_case(draw):
     case['ew'] = None
     case['nw'] = None
     if sim == 'Gillespie_simple_contagion':
-        case['spec'] = draw(st.sampled_from([0, 2, 3, 4]))   # unweighted canonical models (no rejection loops)
+        case['spec'] = draw(st.sampled_from([0, 2, 3, 4, 5]))   # unweighted canonical models (no rejection loops)
         case['IC'] = [draw(st.sampled_from(simrun.SPECS[case['spec']][0])) for _ in case['gc']['nodes']]
     case['k'] = draw(st.integers(0, 5))
     return case
